@@ -150,8 +150,9 @@ func c01Plumbing(ctx *core.Ctx) {
 					catcher = f
 					// callback only when r != nil and r == sentinel; other values re-panicked
 					facts := g.FactsAtInstr(pcall)
-					nonNil := ssax.KnownNil(facts, rc, false)
 					isSent := cmpFact(facts, token.EQL, isVal(rc), isGlobalLoad("failNow"))
+					// equal to the sentinel implies non-nil: the sentinel is created by errors.New and written only by its initialiser (V1)
+					nonNil := ssax.KnownNil(facts, rc, false) || isSent
 					repanic := false
 					g.Instrs(func(i ssa.Instruction) {
 						if pn, ok := i.(*ssa.Panic); ok && pn.X == ssa.Value(rc) && cmpFact(g.FactsAtInstr(pn), token.NEQ, isVal(rc), isGlobalLoad("failNow")) {
